@@ -214,4 +214,37 @@ variant of the reload exchange (with / without the `Save? [yes/no]` question). -
 def simDevice (special : List (Str × List (List Str))) (noAsk : Bool) : Device SimSt where
   step st s := simLines special noAsk st (splitOnNL s)
 
+/-! ## banners on the fixed dialogue
+
+The property speaks of the echo of ANY command.  While a reload is scheduled the session also
+sends the second `configure terminal`, the deferred `end` and `reload cancel`; `wideDevice` lets a
+banner ride on each of them (same four forms, applied to the line's standard answer).  The device
+is "armed" from the moment it has received `reload in 2` (the marker is kept in the otherwise
+unused `occ` field); before that — the seven preparation commands — and on the lines it passes
+through unchanged (changes, the re-arm dialogue, empty commands, `write memory`) it is
+`simDevice [] na`.  Banners on the confirmation lines of the reload dialogue are expressed with the
+scripted answers (`special`) of `simDevice`. -/
+
+def confOut : Str := lit "Enter configuration commands, one per line.  End with CNTL/Z.\n"
+def cancelOut : Str := lit "\n\n***\n*** --- SHUTDOWN ABORTED ---\n***\n"
+
+/-- the output part of the standard answer to a fixed line -/
+def stdOutOf (l : Str) : Str :=
+  if l == confCmd then confOut else if l == cancelCmd then cancelOut else []
+
+/-- the fixed lines a banner may ride on -/
+def isKey (l : Str) : Bool := l == confCmd || l == endCmd || l == cancelCmd
+
+def armedMark : List (Str × Nat) := [(reloadCmd, 1)]
+
+def wideDevice (na : Bool) (fb : Str → Option Behav) : Device SimSt where
+  step st s :=
+    let r := (simDevice [] na).step st s
+    if s == reloadCmd then ({ r.1 with occ := armedMark }, r.2)
+    else if st.occ == armedMark && isKey s then
+      match fb s with
+      | some b => (r.1, replyFor s { b with out := stdOutOf s })
+      | none => r
+    else r
+
 end NA.Ios
